@@ -509,6 +509,7 @@ def live_tier(tier, seed, stats):
 
 
 PROP = Property(
+    prelude=True,
     id="C11",
     level="exploration",
     rule=("Hypothesis generates socket tables: TCP/UDP over IPv4/IPv6 with "
